@@ -33,6 +33,13 @@ func c14Requests() []c14Req {
 	sink.Cfg.PlanModifiers["Leaf.I"] = []string{dsl.TFX + ".PM(900)"}
 	sink.Cfg.Injected = map[string][]dsl.Injected{"Root.Direct": {{Name: "direct_id", Type: "github.com/hashicorp/terraform-plugin-framework/types.StringType", Computed: true}}, "Root.Opt": {{Name: "opt_id", Type: "github.com/hashicorp/terraform-plugin-framework/types.StringType", Optional: true}}, "Root": {{Name: "id", Type: "github.com/hashicorp/terraform-plugin-framework/types.StringType", Computed: true}, {Name: "rev", Type: "github.com/hashicorp/terraform-plugin-framework/types.Int64Type", Optional: true}}}
 	sink.Cfg.Exclude = []string{"Big.By"}
+	// the default modifier switch together with lists that name the default modifier themselves,
+	// repeat entries, and mix them with others (computed fields: the flags mix marks every path)
+	usu := "github.com/hashicorp/terraform-plugin-framework/tfsdk.UseStateForUnknown()"
+	sink.Cfg.UseStateForUnknown = true
+	sink.Cfg.PlanModifiers["Root.Str"] = []string{dsl.TFX + ".PM(910)", usu, dsl.TFX + ".PM(911)"}
+	sink.Cfg.PlanModifiers["Big.S"] = []string{usu, dsl.TFX + ".PM(912)", usu, dsl.TFX + ".PM(913)", dsl.TFX + ".PM(912)"}
+	sink.Cfg.Validators["Big.L"] = []string{dsl.TFX + ".V(914)", dsl.TFX + ".V(915)", dsl.TFX + ".V(914)", dsl.TFX + ".V(916)"}
 	out = append(out, c14Req{"sink+flags", sink.File.Descriptor(), sink.Cfg})
 	f5, c5 := c16Base()
 	c5.NameOverrides = map[string]string{"Shared.ID": "ident", "Alpha.Meta": "metadata", "Alpha.Meta.ID": "alpha_meta_ident", "Beta.Meta.Label": "beta_label", "Shared.Label": "generic_label"}
@@ -40,6 +47,10 @@ func c14Requests() []c14Req {
 	c5.PlanModifiers = map[string][]string{"Alpha.Meta": {dsl.TFX + ".PM(1)"}, "Tiny.On": {dsl.TFX + ".PM(2)"}, "Gamma.Deep.Inner.Tiny.On": {dsl.TFX + ".PM(3)"}}
 	c5.Injected = map[string][]dsl.Injected{"Alpha": {{Name: "id", Type: "github.com/hashicorp/terraform-plugin-framework/types.StringType", Computed: true}}, "Alpha.Meta": {{Name: "meta_id", Type: "github.com/hashicorp/terraform-plugin-framework/types.StringType", Computed: true}}, "Beta.Meta": {{Name: "beta_meta_id", Type: "github.com/hashicorp/terraform-plugin-framework/types.StringType", Optional: true}}}
 	c5.UseStateForUnknown = true
+	c5.Computed = append(c5.Computed, "Shared.Label", "Beta.Count")
+	c5.PlanModifiers["Shared.Label"] = []string{dsl.TFX + ".PM(7)", usu, dsl.TFX + ".PM(8)"}
+	c5.PlanModifiers["Beta.Count"] = []string{usu, usu, dsl.TFX + ".PM(9)", dsl.TFX + ".PM(10)", dsl.TFX + ".PM(9)"}
+	c5.Validators["Gamma.KT"] = []string{dsl.TFX + ".V(7)", dsl.TFX + ".V(8)", dsl.TFX + ".V(7)", dsl.TFX + ".V(9)"}
 	out = append(out, c14Req{"f5+options", f5.Descriptor(), c5})
 	// shapes with several embedded parents, several oneof groups and custom types (sorted)
 	for _, c := range space.F4()[2:] {
